@@ -28,15 +28,16 @@ import (
 const (
 	findCompact = "C14-compact-failure-leaves-unwritable"
 	findCommit  = "C14-commit-failure-leaves-unwritable"
+	findReoffer = "C14-commit-reoffers-despite-readonly-replica"
 
 	sizeLimit = 30 * 1024 * 1024 // volume size limit of the topology; every volume is far below it
 	volSize   = 1024 * 1024
 )
 
 func TestMain(m *testing.M) {
-	vlib.Rule("C14: a topology with one volume layout (1-2 volumes, 1-3 replicas each, replication 1-3 copies, replicationAsMin on/off, master-side read-only flags) whose data nodes are in-process gRPC volume-server fakes scripted per replica and phase (check above/below/error, compact ok/error, commit ok/error/ok+readOnly, cleanup ok/error; errors as application errors or as 'transport' errors that drop the cached connection). TestPropVacuumScriptsExhaustive enumerates the full product of per-replica scripts (quick: 1-2 replicas in full plus every distinct reachable projection for 3 replicas; thorough: the full 36^n product for n=1..3); TestPropVacuumInitialStatesExhaustive crosses every reachable script with the initial states (missing / surplus replica, replicationAsMin, read-only replica); TestPropVacuumRounds samples multi-volume, multi-round sequences with heartbeats in between; TestPropVacuumRealStores puts real storage.Store volumes (generated content with garbage) behind the fakes, with errors injected before or after the real compact/commit and client writes/deletes arriving in the middle of the round, and compares every replica with the clients' model afterwards. Non-trivial = a round in which at least one replica received a compact RPC and (the volume has >=2 replicas or some RPC of the round answered with an error / read-only).")
+	vlib.Rule("C14: a topology with one volume layout (1-2 volumes, 1-3 replicas each, replication 1-3 copies, replicationAsMin on/off, master-side read-only flags) whose data nodes are in-process gRPC volume-server fakes scripted per replica and phase (check above/below/error, compact ok/error, commit ok/error/ok+readOnly, cleanup ok/error; errors as application errors or as 'transport' errors that drop the cached connection). TestPropVacuumScriptsExhaustive enumerates the full product of per-replica scripts (quick: 1-2 replicas in full plus every distinct reachable projection for 3 replicas; thorough: the full 36^n product for n=1..3); TestPropVacuumInitialStatesExhaustive crosses every reachable script with the initial states (missing / surplus replica, replicationAsMin, read-only replica); TestPropVacuumMidRoundEventsExhaustive crosses every reachable script (quick: 1-2 replicas, thorough: 1-3) with every mid-round topology event (a replica's server goes down = its data node is unregistered and it fails all later RPCs, or a heartbeat reports a replica read-only; performed once, synchronously, inside the fake's check/compact/commit handler before it answers); TestPropVacuumRounds samples multi-volume, multi-round sequences with heartbeats in between and such mid-round events in ~40% of the rounds; TestPropVacuumRealStores puts real storage.Store volumes (generated content with garbage) behind the fakes, with errors injected before or after the real compact/commit and client writes/deletes arriving in the middle of the round, and compares every replica with the clients' model afterwards. Non-trivial = a round in which at least one replica received a compact RPC and (the volume has >=2 replicas or some RPC of the round answered with an error / read-only).")
 	vlib.Assume("C14: volume servers are fakes that answer immediately from a script; the minutes-long RPC wait timeouts of the vacuum batches (1-3 min x volumeSizeLimit) are never reached, so the 'timeout' outcome of the quantifier is not explored. Replica content is not modelled in the scripted tiers (only in TestPropVacuumRealStores): there 'same live content' is reduced to the RPC-history invariants (commit only after that replica's own successful compact of the same round; every compacted replica is committed or cleaned up). Volumes are below the size limit (a vacuum legitimately re-offers a shrunk volume).")
-	vlib.Assume("C14: 'writable had no vacuum been attempted' is the membership in the layout's writable list before the first round, except that a replica answering commit with IsReadOnly=true makes 'not writable' the expected state (the master has learnt that a replica is read-only).")
+	vlib.Assume("C14: 'writable had no vacuum been attempted' is read off a twin topology that receives the same registrations, heartbeats and data-node losses but never runs a vacuum; where the twin disagrees with the membership rule (enough live copies, no replica reported read-only) the no-vacuum answer is ambiguous and nothing is demanded (class writable-without-vacuum-ambiguous). Also, a replica answering commit with IsReadOnly=true makes 'not writable' the expected state (the master has learnt that a replica is read-only).")
 	quietGlog()
 	vlib.Main(m)
 }
@@ -86,14 +87,22 @@ type world struct {
 	roSay map[uint32]bool // a commit answered IsReadOnly in some round so far
 	taint map[uint32]string
 	trace []string
+
+	// the twin: the same topology, fed with the same registrations, heartbeats
+	// and node losses, on which no vacuum is ever run. It answers "would the
+	// volume be writable had no vacuum been attempted".
+	twin    *topology.Topology
+	twinDns map[int]*topology.DataNode
+	dead    map[int]bool    // servers that went down (data node unregistered)
+	roTruth map[[2]int]bool // (server, vid): the replica is read-only on its server
 }
 
 func (w *world) layout() *topology.VolumeLayout {
 	return w.topo.GetVolumeLayout("", w.rp, needle.EMPTY_TTL, types.HardDriveType)
 }
 
-func (w *world) writable(vid uint32) bool {
-	for _, x := range w.layout().ToMap()["writables"].([]needle.VolumeId) {
+func (w *world) writableOn(topo *topology.Topology, vid uint32) bool {
+	for _, x := range topo.GetVolumeLayout("", w.rp, needle.EMPTY_TTL, types.HardDriveType).ToMap()["writables"].([]needle.VolumeId) {
 		if uint32(x) == vid {
 			return true
 		}
@@ -101,7 +110,18 @@ func (w *world) writable(vid uint32) bool {
 	return false
 }
 
+func (w *world) writable(vid uint32) bool { return w.writableOn(w.topo, vid) }
+
+// heartbeat delivers the full heartbeat of a (live) server to the master and to the twin.
 func (w *world) heartbeat(server int) {
+	if w.dead[server] {
+		return
+	}
+	w.heartbeatOn(w.topo, w.dns, server)
+	w.heartbeatOn(w.twin, w.twinDns, server)
+}
+
+func (w *world) heartbeatOn(topo *topology.Topology, dns map[int]*topology.DataNode, server int) {
 	var msgs []*master_pb.VolumeInformationMessage
 	for _, v := range w.sp.vols {
 		for i, s := range v.replicas {
@@ -111,11 +131,12 @@ func (w *world) heartbeat(server int) {
 			}
 		}
 	}
-	w.topo.SyncDataNodeRegistration(msgs, w.dns[server])
+	topo.SyncDataNodeRegistration(msgs, dns[server])
 }
 
 func newWorld(t failer, sp spec) *world {
-	w := &world{t: t, f: servers(t), sp: sp, dns: map[int]*topology.DataNode{}, w0: map[uint32]bool{}, roSay: map[uint32]bool{}, taint: map[uint32]string{}}
+	w := &world{t: t, f: servers(t), sp: sp, dns: map[int]*topology.DataNode{}, w0: map[uint32]bool{}, roSay: map[uint32]bool{}, taint: map[uint32]string{},
+		twinDns: map[int]*topology.DataNode{}, dead: map[int]bool{}, roTruth: map[[2]int]bool{}}
 	w.f.reset()
 	rp, err := super_block.NewReplicaPlacementFromString(fmt.Sprintf("00%d", sp.copies-1))
 	if err != nil {
@@ -124,6 +145,8 @@ func newWorld(t failer, sp spec) *world {
 	w.rp = rp
 	w.topo = topology.NewTopology("topo", sequence.NewMemorySequencer(), sizeLimit, 5, sp.asMin)
 	rack := w.topo.GetOrCreateDataCenter("dc1").GetOrCreateRack("rack1")
+	w.twin = topology.NewTopology("twin", sequence.NewMemorySequencer(), sizeLimit, 5, sp.asMin)
+	twinRack := w.twin.GetOrCreateDataCenter("dc1").GetOrCreateRack("rack1")
 	used := map[int]bool{}
 	for _, v := range sp.vols {
 		for _, s := range v.replicas {
@@ -138,6 +161,7 @@ func newWorld(t failer, sp spec) *world {
 	for _, s := range order {
 		p := w.f.ports[s]
 		w.dns[s] = rack.GetOrCreateDataNode("127.0.0.1", p, fmt.Sprintf("127.0.0.1:%d", p), map[string]uint32{"": 10})
+		w.twinDns[s] = twinRack.GetOrCreateDataNode("127.0.0.1", p, fmt.Sprintf("127.0.0.1:%d", p), map[string]uint32{"": 10})
 	}
 	for _, s := range order {
 		w.heartbeat(s)
@@ -149,8 +173,8 @@ func newWorld(t failer, sp spec) *world {
 		for _, ro := range v.roMaster {
 			want = want && !ro
 		}
-		if want != w.w0[v.vid] {
-			t.Fatalf("INCONCLUSIVE setup: volume %d of {%s} is writable=%v after registration, the harness expected %v", v.vid, sp, w.w0[v.vid], want)
+		if want != w.w0[v.vid] || want != w.writableOn(w.twin, v.vid) {
+			t.Fatalf("INCONCLUSIVE setup: volume %d of {%s} is writable=%v (twin %v) after registration, the harness expected %v", v.vid, sp, w.w0[v.vid], w.writableOn(w.twin, v.vid), want)
 		}
 	}
 	return w
@@ -176,15 +200,83 @@ type verdict struct {
 	nontrivial bool
 }
 
+// midEvent is something the master learns in the middle of a round: it is
+// performed by the fake of server `at` inside its handler of (vid, phase),
+// before that handler answers, on the master's topology and on the twin.
+type midEvent struct {
+	kind   int    // evDie: server `at` goes down (its data node is unregistered, it fails this and all later RPCs); evReadOnly: the heartbeat of server `target` reports its replica of vid read-only
+	phase  string // check | compact | commit
+	vid    uint32
+	at     int
+	target int
+}
+
+const (
+	evDie = iota + 1
+	evReadOnly
+)
+
+func (e *midEvent) String() string {
+	if e == nil {
+		return ""
+	}
+	if e.kind == evDie {
+		return fmt.Sprintf(" event{s%d goes down (data node unregistered) while answering %s(v%d)}", e.at, e.phase, e.vid)
+	}
+	return fmt.Sprintf(" event{heartbeat of s%d reports v%d read-only while s%d answers %s(v%d)}", e.target, e.vid, e.at, e.phase, e.vid)
+}
+
+func (w *world) arm(e *midEvent) {
+	w.f.clearEvents()
+	if e == nil {
+		return
+	}
+	w.f.setEvent(e.at, e.vid, e.phase, func() bool {
+		switch e.kind {
+		case evDie:
+			if w.dead[e.at] {
+				return true
+			}
+			w.topo.UnRegisterDataNode(w.dns[e.at])
+			w.twin.UnRegisterDataNode(w.twinDns[e.at])
+			w.dead[e.at] = true
+			vlib.Class("mid-round:server-down@" + e.phase)
+			return true
+		case evReadOnly:
+			for vi := range w.sp.vols {
+				v := &w.sp.vols[vi]
+				for i, s := range v.replicas {
+					if v.vid == e.vid && s == e.target {
+						v.roMaster[i] = true
+					}
+				}
+			}
+			w.roTruth[[2]int{e.target, int(e.vid)}] = true
+			w.f.reportReadOnly(e.target, e.vid)
+			w.heartbeat(e.target)
+			vlib.Class("mid-round:read-only-heartbeat@" + e.phase)
+		}
+		return false
+	})
+}
+
 // round runs one Topology.Vacuum with the given scripts and applies the oracle.
-func (w *world) round(rs roundScripts) map[uint32]verdict {
+func (w *world) round(rs roundScripts) map[uint32]verdict { return w.roundWith(rs, nil) }
+
+func (w *world) roundWith(rs roundScripts, ev *midEvent) map[uint32]verdict {
 	for _, v := range w.sp.vols {
 		for i, s := range v.replicas {
-			w.f.set(s, v.vid, rs[v.vid][i])
+			sc := rs[v.vid][i]
+			if w.roTruth[[2]int{s, int(v.vid)}] && sc.commit == cmOK {
+				sc.commit = cmOKRO // a replica that is read-only on its server says so when it commits
+			}
+			w.f.set(s, v.vid, sc)
 		}
 	}
-	w.trace = append(w.trace, "round{"+scriptsString(w.sp, rs)+"}")
+	w.arm(ev)
+	w.trace = append(w.trace, "round{"+scriptsString(w.sp, rs)+"}"+ev.String())
 	w.topo.Vacuum(grpc.WithInsecure(), w.sp.threshold, 0)
+	w.f.clearEvents()
 	log := w.f.takeLog()
 	out := map[uint32]verdict{}
 	for _, v := range w.sp.vols {
@@ -227,7 +319,7 @@ func (w *world) judge(v volSpec, evs []event) verdict {
 		layoutRO = layoutRO || ro
 	}
 	nCheck, nCompact, nCommit, nCleanup := 0, 0, 0, 0
-	compactFailed, commitFailed, anyFault := false, false, false
+	compactFailed, commitFailed, anyFault, roThisRound := false, false, false, false
 	for i, e := range evs {
 		if !isReplica[e.server] {
 			w.fail("volume %d: %s was sent to a server that holds no replica of the volume", v.vid, e)
@@ -256,6 +348,7 @@ func (w *world) judge(v volSpec, evs []event) verdict {
 			commitFailed = commitFailed || !e.ok
 			if e.ro {
 				w.roSay[v.vid] = true
+				roThisRound = true
 			}
 			// commit only on a replica whose own compaction succeeded in this round
 			compacted := false
@@ -288,7 +381,7 @@ func (w *world) judge(v volSpec, evs []event) verdict {
 		class = "compact-failed"
 	case commitFailed:
 		class = "commit-failed"
-	case w.roSay[v.vid]:
+	case roThisRound:
 		class = "committed-readonly-reported"
 	case nCommit > 0:
 		class = "committed"
@@ -298,9 +391,28 @@ func (w *world) judge(v volSpec, evs []event) verdict {
 	}
 
 	// writable afterwards exactly when it would be without the vacuum
-	want := w.w0[v.vid] && !w.roSay[v.vid]
+	// (the twin topology got the same registrations, heartbeats and node losses, but no vacuum)
+	twinSays := w.writableOn(w.twin, v.vid)
+	want := twinSays && !w.roSay[v.vid]
 	got := w.writable(v.vid)
-	w.trace = append(w.trace, fmt.Sprintf("  v%d writable: before-first-round=%v now=%v", v.vid, w.w0[v.vid], got))
+	w.trace = append(w.trace, fmt.Sprintf("  v%d writable: before-first-round=%v without-vacuum(twin)=%v now=%v", v.vid, w.w0[v.vid], twinSays, got))
+	// the membership rule applied to what the master has been told (live replicas, their read-only flags)
+	alive, ruleSays := 0, true
+	for i, s := range v.replicas {
+		if !w.dead[s] {
+			alive++
+			ruleSays = ruleSays && !v.roMaster[i]
+		}
+	}
+	ruleSays = ruleSays && (alive == w.sp.copies || w.sp.asMin && alive > w.sp.copies)
+	if twinSays != ruleSays {
+		// e.g. a surplus replica's server went down and exactly the wanted number of copies is left: the
+		// master does not re-offer such a volume by itself, a vacuum commit does. Neither answer contradicts
+		// the statement, so nothing is demanded here.
+		vlib.Class("writable-without-vacuum-ambiguous(twin!=membership-rule)")
+		w.taint[v.vid] = ""
+		return verdict{class: class, nontrivial: nCompact > 0 && (len(v.replicas) >= 2 || anyFault)}
+	}
 	if got != want {
 		key := ""
 		switch {
@@ -308,7 +420,13 @@ func (w *world) judge(v volSpec, evs []event) verdict {
 			key = findCompact
 		case class == "commit-failed" && vlib.Known(findCommit):
 			key = findCommit
-		case w.taint[v.vid] != "" && !(nCommit > 0 && !commitFailed):
+		case got && class == "committed" && layoutRO && vlib.Known(findReoffer):
+			// a heartbeat reported a replica read-only during the round, the commit re-offered the volume all the same
+			key = findReoffer
+		case got && w.taint[v.vid] == findReoffer:
+			// nothing takes the volume out of the writable list again
+			key = findReoffer
+		case w.taint[v.vid] != "" && w.taint[v.vid] != findReoffer && !(nCommit > 0 && !commitFailed):
 			// still the consequence of an earlier round's listed finding: nothing in this round re-offered the volume
 			key = w.taint[v.vid]
 		}
@@ -318,6 +436,8 @@ func (w *world) judge(v volSpec, evs []event) verdict {
 				tag = "[" + findCompact + "] "
 			} else if class == "commit-failed" {
 				tag = "[" + findCommit + "] "
+			} else if got && class == "committed" && layoutRO {
+				tag = "[" + findReoffer + "] "
 			}
 			w.fail("%svolume %d is writable=%v after the round (%s), but without the vacuum it would be writable=%v", tag, v.vid, got, class, want)
 		}
@@ -419,6 +539,55 @@ func oneVolume(t failer, copies int, asMin bool, n int, ro []bool, sc []repScrip
 		state = "unwritable"
 	}
 	vlib.Case(sp.String()+" | "+scriptsString(sp, rs)+" => "+v.class, v.nontrivial, v.class, fmt.Sprintf("replicas=%d", n), "initially-"+state)
+}
+
+func oneVolumeEvent(t failer, n int, sc []repScript, ev midEvent) {
+	sp := spec{copies: n, threshold: 0.3, vols: []volSpec{{vid: 1, replicas: seqInts(n), roMaster: make([]bool, n)}}}
+	w := newWorld(t, sp)
+	rs := roundScripts{1: sc}
+	e := ev
+	v := w.roundWith(rs, &e)[1]
+	fired := "event-fired"
+	if !w.dead[ev.at] && !w.roTruth[[2]int{ev.target, 1}] {
+		fired = "event-not-reached"
+	}
+	vlib.Case(sp.String()+" | "+scriptsString(sp, rs)+e.String()+" => "+v.class, v.nontrivial && fired == "event-fired", "mid-round-event:"+v.class, fmt.Sprintf("replicas=%d", n), fired)
+}
+
+// ------------------------------------------------------------------ exhaustive: mid-round topology events x reachable scripts
+
+// Every reachable script (quick: 1-2 replicas, thorough: 1-3) crossed with
+// every mid-round event: each replica's server going down while it answers its
+// check / compact / commit, and each replica being reported read-only by a
+// heartbeat while each replica's check / compact / commit is being answered.
+func TestPropVacuumMidRoundEventsExhaustive(t *testing.T) {
+	item := 0
+	for n := 1; n <= vlib.Pick(2, 3); n++ {
+		seen := map[string]bool{}
+		for idx := 0; idx < product(n); idx++ {
+			sc := decodeScripts(n, idx)
+			k := projKey(sc)
+			if seen[k] {
+				continue
+			}
+			seen[k] = true
+			for _, phase := range []string{"check", "compact", "commit"} {
+				for at := 0; at < n; at++ {
+					evs := []midEvent{{kind: evDie, phase: phase, vid: 1, at: at, target: at}}
+					for target := 0; target < n; target++ {
+						evs = append(evs, midEvent{kind: evReadOnly, phase: phase, vid: 1, at: at, target: target})
+					}
+					for _, ev := range evs {
+						if vlib.ShardOwns(item) {
+							oneVolumeEvent(t, n, sc, ev)
+						}
+						item++
+					}
+				}
+			}
+		}
+	}
+	vlib.Exhaustive("mid-round-events-x-reachable-scripts", true)
 }
 
 // ------------------------------------------------------------------ exhaustive: scripts
@@ -550,7 +719,27 @@ func TestPropVacuumRounds(t *testing.T) {
 					rs[v.vid] = append(rs[v.vid], genScript(t, fmt.Sprintf("r%d.v%d.%d", r, v.vid, i), r == rounds-1))
 				}
 			}
-			vds := w.round(rs)
+			// sometimes the master learns something in the middle of the round
+			var ev *midEvent
+			if rapid.IntRange(0, 9).Draw(t, fmt.Sprintf("r%d.event", r)) < 4 {
+				v := sp.vols[rapid.IntRange(0, nv-1).Draw(t, fmt.Sprintf("r%d.event.vol", r))]
+				var alive []int
+				for _, s := range v.replicas {
+					if !w.dead[s] {
+						alive = append(alive, s)
+					}
+				}
+				if len(alive) > 0 {
+					ev = &midEvent{
+						kind:   rapid.SampledFrom([]int{evDie, evReadOnly, evReadOnly}).Draw(t, fmt.Sprintf("r%d.event.kind", r)),
+						phase:  rapid.SampledFrom([]string{"check", "compact", "compact", "commit"}).Draw(t, fmt.Sprintf("r%d.event.phase", r)),
+						vid:    v.vid,
+						at:     rapid.SampledFrom(alive).Draw(t, fmt.Sprintf("r%d.event.at", r)),
+						target: rapid.SampledFrom(alive).Draw(t, fmt.Sprintf("r%d.event.target", r)),
+					}
+				}
+			}
+			vds := w.roundWith(rs, ev)
 			for _, v := range sp.vols {
 				nontrivial = nontrivial || vds[v.vid].nontrivial
 				vlib.Class("round:" + vds[v.vid].class)
@@ -628,4 +817,41 @@ func TestFindingCommitFailureLeavesUnwritable(t *testing.T) {
 	bad := repScript{check: ckAbove, commit: cmErr}
 	rep, detail := probe(t, 2, []repScript{ok, bad})
 	vlib.Finding(t, findCommit, rep, detail)
+}
+
+// A heartbeat reports replica s0 (not compacted in this round: its garbage is
+// below the threshold) read-only while s1 is compacting; the round then commits
+// on s1 and re-offers the volume although the master knows that s0 is read-only.
+func TestFindingCommitReoffersDespiteReadOnlyReplica(t *testing.T) {
+	p := &probeT{}
+	rep, detail := false, ""
+	func() {
+		defer func() {
+			if r := recover(); r != nil {
+				if r != p {
+					panic(r)
+				}
+				detail = "probe could not run: " + p.msg
+			}
+		}()
+		sp := spec{copies: 2, threshold: 0.3, vols: []volSpec{{vid: 1, replicas: []int{0, 1}, roMaster: make([]bool, 2)}}}
+		w := newWorld(p, sp)
+		sc := []repScript{{check: ckBelow}, {check: ckAbove}}
+		for i, s := range sp.vols[0].replicas {
+			w.f.set(s, 1, sc[i])
+		}
+		ev := &midEvent{kind: evReadOnly, phase: "compact", vid: 1, at: 1, target: 0}
+		w.arm(ev)
+		before := w.writable(1)
+		w.topo.Vacuum(grpc.WithInsecure(), sp.threshold, 0)
+		w.f.clearEvents()
+		var es []string
+		for _, e := range w.f.takeLog() {
+			es = append(es, e.String())
+		}
+		after, twin := w.writable(1), w.writableOn(w.twin, 1)
+		rep = before && after && !twin
+		detail = fmt.Sprintf("2 replicas, scripts {%s}%s: rpcs %s; writable before=%v, after the round=%v, same heartbeat without any vacuum=%v", scriptsString(sp, roundScripts{1: sc}), ev, strings.Join(es, " "), before, after, twin)
+	}()
+	vlib.Finding(t, findReoffer, rep, detail)
 }
